@@ -31,3 +31,21 @@ func (k *KVStore) VerifTables() []VerifTableInfo {
 	}
 	return out
 }
+
+// VerifPlacement maps every stored hkey to (position of its table in k.tables, coefficient, offset).
+type VerifPlace struct {
+	Index       int
+	Coefficient uint64
+	Offset      uint64
+}
+
+func (k *KVStore) VerifPlacement() map[uint64]VerifPlace {
+	out := map[uint64]VerifPlace{}
+	for i, t := range k.tables {
+		for h, o := range t.VerifHKeys() {
+			// the newest table wins, as in Get
+			out[h] = VerifPlace{Index: i, Coefficient: t.Coefficient(), Offset: o}
+		}
+	}
+	return out
+}
